@@ -6,12 +6,13 @@
 (* implementation that says "unhealthy" more often is not rejected.           *)
 EXTENDS Quorum, TraceBase
 
-tvars == <<member, active, leader, cfg, up, l, sid, used>>
+tvars == <<member, active, leader, cfg, up, l, sid, used, failed>>
 
 ObsOK == Ev.obs.healthy => HealthyAllowed'
 
 TInit == QInit /\ TBInit
 T_Reset == ResetBook /\ member' = <<>> /\ active' = {} /\ leader' = {} /\ cfg' = <<>> /\ up' = FALSE
+T_Fail == FailBook /\ member' = <<>> /\ active' = {} /\ leader' = {} /\ cfg' = <<>> /\ up' = FALSE
 T_CfgAdd == IsEv("CfgAdd") /\ CfgAdd(Ev.id, Ev.voter) /\ Same
 T_Start == IsEv("Start") /\ Start(Ev.res = "ok") /\ (Ev.res = "ok" => ObsOK) /\ Same
 T_AddNode == IsEv("AddNode") /\ AddNode(Ev.id, Ev.voter) /\ ObsOK /\ Same
@@ -20,6 +21,6 @@ T_MarkActive == IsEv("MarkActive") /\ MarkActive(Ev.id) /\ ObsOK /\ Same
 T_MarkInactive == IsEv("MarkInactive") /\ MarkInactive(Ev.id) /\ ObsOK /\ Same
 T_SetRole == IsEv("SetRole") /\ SetRole(Ev.id, Ev.leader) /\ ObsOK /\ Same
 
-TNext == T_Reset \/ T_CfgAdd \/ T_Start \/ T_AddNode \/ T_RemoveNode \/ T_MarkActive \/ T_MarkInactive \/ T_SetRole
+TNext == T_Fail \/ T_Reset \/ T_CfgAdd \/ T_Start \/ T_AddNode \/ T_RemoveNode \/ T_MarkActive \/ T_MarkInactive \/ T_SetRole
 TSpec == TInit /\ [][TNext]_tvars
 =============================================================================
